@@ -252,8 +252,10 @@ def exec_affine(case):
         right = (1,)
     shapes = {"right": right, "scalar": (), "transposed": tuple(reversed(right)), "one-more": tuple(right[:-1]) + (right[-1] + 1,) if len(right) else (2,)}
     ss = shapes[sv]
+    # the zero-point comes with the shape of the scale, or (an asymmetric pair) with ANOTHER of these shapes
+    zs = shapes[case.get("zp", sv) if case.get("zp", "same") != "same" else sv]
     scale = torch.full(ss, 0.3, dtype=dtype)
-    zp = torch.full(ss, 1, dtype=torch.int8)
+    zp = torch.full(zs, 1, dtype=torch.int8)
     r = cut(AffineQuantizer.apply, x, qtype, axis, gs, scale, zp)
     kind = classify(r)
     tag = "AffineQuantizer"
@@ -264,13 +266,13 @@ def exec_affine(case):
         why = "axis"
     elif not valid_group:
         why = "group-not-divisor"
-    elif tuple(ss) != tuple(right):
+    elif tuple(ss) != tuple(right) or tuple(zs) != tuple(right):
         why = "scale-does-not-match-request"
     out.klass = [f"outcome-{kind}", qn, f"axis{axis}", f"scale-{sv}", "must-reject-" + why if why else "supported"]
-    out.fingerprint = [shape, qn, axis, gs, sv]
+    out.fingerprint = [shape, qn, axis, gs, sv, case.get("zp", "same")]
     out.nontrivial = True
     if kind.startswith("raises:"):
-        out.fail(f"{tag}/{kind}/{why or 'supported-looking'}", f"{r.text} (shape {shape}, {qn}, axis {axis}, group {gs}, scale shape {tuple(ss)})")
+        out.fail(f"{tag}/{kind}/{why or 'supported-looking'}", f"{r.text} (shape {shape}, {qn}, axis {axis}, group {gs}, scale shape {tuple(ss)}, zero-point shape {tuple(zs)})")
     elif kind == "ValueError" and why is None and len(shape) >= 2:
         out.fail(f"{tag}/rejected-supported", f"{r.text} (shape {shape}, {qn}, axis {axis}, group {gs}, scale shape {tuple(ss)})")
     elif kind == "accepted":
@@ -300,6 +302,9 @@ def affine_grid():
                 for gs in [None, 1, 2, 3, 4, 5, 6, 8, 12, n, 2 * n]:
                     for sv in ("right", "scalar", "transposed", "one-more"):
                         yield {"shape": shape, "qtype": qn, "axis": axis, "group_size": gs, "scale": sv, "dtype": "fp32"}
+                        for zv in ("right", "scalar", "one-more"):
+                            if zv != sv and (gs is None or gs in (2, n)):
+                                yield {"shape": shape, "qtype": qn, "axis": axis, "group_size": gs, "scale": sv, "zp": zv, "dtype": "fp32"}
 
 
 # ----------------------------------------------------------------------------- the optimizers and group() called directly
